@@ -140,7 +140,7 @@ Proof.
     destruct a as [ty len off nulls bufs kids]; cbn [p_ty p_kids p_bufs] in *; subst.
     assert (Hdk : depth k < f) by (cbn [depth fold_right] in Hd; lia).
     cbn [w_arr p_ty p_kids p_off p_len p_bufs nth var_counts flat_map]. rewrite app_nil_r.
-    specialize (IH k Hs f ((off + s) * Z.to_nat sz) (l * Z.to_nat sz) false Hdk q). unfold counts_ok in IH.
+    specialize (IH k Hs f ((off + s) * Z.to_nat sz) (l * Z.to_nat sz) proper Hdk q). unfold counts_ok in IH.
     destruct (w_walk c v5 (var_counts k ++ q)) as [tc r] eqn:E. destruct IH as (H1 & H2 & ->).
     destruct v5; cbn [w_walk has_validity]; rewrite E; rewrite !wcat_fst, !wcat_snd; cbn [fst snd app]; rewrite ?app_length; norm; cbn [length]; repeat split; lia.
   - (* struct *)
